@@ -78,6 +78,13 @@ func checkLexemes(input string, lex []escan.Lex) *lexViolation {
 					return &lexViolation{"regex-delimited", fmt.Sprintf("regex lexeme %q is not exactly one /…/ value", val), l.Begin}
 				}
 			}
+		case scanner.Parameter:
+			// a parameter that begins with a quote is one complete quoted value: it ends with the
+			// closing quote, has no bare quote inside, and every backslash escapes a quote or a
+			// backslash (whatever follows the value is the next lexeme's or the skipper's business)
+			if len(val) > 0 && val[0] == '"' && !oneQuoted(val) {
+				return &lexViolation{"quoted-parameter-delimited", fmt.Sprintf("parameter lexeme %q begins with a quote but is not exactly one quoted value", val), l.Begin}
+			}
 		case scanner.ContextExplicitOpening:
 			if val != "(" {
 				return &lexViolation{"paren-lexeme", fmt.Sprintf("context-opening lexeme is %q", val), l.Begin}
@@ -98,6 +105,24 @@ func safeLen(f func() (uint, error)) (n uint, err error) {
 		}
 	}()
 	return f()
+}
+
+func oneQuoted(v string) bool {
+	if len(v) < 2 || v[0] != '"' || v[len(v)-1] != '"' {
+		return false
+	}
+	for i := 1; i < len(v)-1; i++ {
+		switch v[i] {
+		case '\\':
+			if i+1 >= len(v)-1 || (v[i+1] != '"' && v[i+1] != '\\') {
+				return false
+			}
+			i++
+		case '"':
+			return false
+		}
+	}
+	return true
 }
 
 func oneRegex(v string) bool {
